@@ -7,7 +7,27 @@ OM = "ds/orderedmap/orderedmap.go:OrderedMap."
 SM = "ds/shrinkingmap/shrinkingmap.go:"
 
 
+SOM = "ds/serializableorderedmap/serializable_orderedmap.go:SerializableOrderedMap."
+
+
+def regen_stmts(ctx):
+    """Regenerates lean/Hive/Gen/C11_Stmts.lean: the normalised statements of SerializableOrderedMap.Encode / Decode
+    (the width of the entry-count field, the order of key and value, the duplicate-key refusal), pinned by C11_stmts_*."""
+    out = os.path.join(checklib.LEAN, "Hive", "Gen", "C11_Stmts.lean")
+    tmp = os.path.join(ctx.scratch, "C11_Stmts.lean")
+    args = ["go", "run", "./tools/stmts", tmp, "Hive.Gen.C11Stmts"] + [os.path.join(ctx.repo, SOM + m) for m in ("Encode", "Decode")]
+    rc, log = checklib.sh(args, cwd=checklib.HARNESS, timeout=600)
+    if rc != 0 or not os.path.exists(tmp):
+        return [{"kind": "skeleton-extractor", "detail": checklib.tail(log, 20)}]
+    checklib.write_gen(ctx, out, open(tmp).read())
+    return []
+
+
 def regen(ctx):
+    return (regen_skel(ctx) or []) + regen_stmts(ctx)
+
+
+def regen_skel(ctx):
     # lock skeletons of the anchored methods, regenerated from the working tree (Hive/Gen/C11_Skel.lean)
     return checklib.regen_skeletons(
         ctx,
@@ -37,6 +57,8 @@ SPEC = {
         "C11_weak_iteration", "C11_weak_iteration_forward",
         "C11_deadlock_free", "C11_deadlock_free_methods", "C11_old_deleteall_deadlock_witness",
         "C11_apply_atomic", "C11_single_linearizable", "C11_lincheck_sound",
+        "C11_stmts_SerializableOrderedMap_Encode", "C11_stmts_SerializableOrderedMap_Decode",
+        "C11_count_prefix_is_four_bytes", "C11_count_prefix_roundtrip", "C11_count_prefix_wraps",
         "C11_skeleton_set_Add", "C11_skeleton_set_AddAll", "C11_skeleton_set_Delete", "C11_skeleton_set_DeleteAll",
         "C11_skeleton_set_Apply", "C11_skeleton_set_Compute", "C11_skeleton_set_Replace", "C11_skeleton_set_apply",
         "C11_skeleton_OrderedMap_Set", "C11_skeleton_OrderedMap_Delete", "C11_skeleton_OrderedMap_Get",
@@ -79,7 +101,8 @@ SPEC = {
         "(a data race with a concurrent Set of the same key on maps with non-empty values) is outside the property",
     ],
     "manifest": {
-        "text": "Lean 4 theorems over every operation history: the ordered map's iteration order is the first-insertion order of the live keys "
+        "text": "Round 6: the entry-count field of the codec as a field of w bytes (C11_count_prefix_roundtrip for every w, C11_count_prefix_wraps: sharp at 256^w entries, C11_count_prefix_is_four_bytes + regenerated statements of SerializableOrderedMap.Encode/Decode), sets of 65535..65543 elements through the real codec (wbig), directed single-element-call-inside-Replace scenario (overlap). " \
+                "Lean 4 theorems over every operation history: the ordered map's iteration order is the first-insertion order of the live keys "
                 "(C11_omap_order, by refinement from a pointer-level model of the hash index + doubly linked chain, C11_omap_refines), "
                 "Set/Add/Delete report prior presence (C11_prior_presence), AddAll/DeleteAll/Replace/Apply/Compute return exactly the membership "
                 "changes incl. the fold law for overlapping mutations (C11_diffs_exact, C11_diffs_exact_apply), the set algebra matches its "
